@@ -1,5 +1,5 @@
 """F1 / F1r: panic-source cone and recursion over the MIR call graph (DESIGN.md section 4)."""
-import os, re, collections
+import os, re, collections, copy
 from facts import AnchorMissing
 
 # External callees that may panic although std does not mark them #[track_caller], and callees marked
@@ -37,6 +37,7 @@ class Source:
         self.fn, self.kind, self.callee, self.label, self.loc, self.macro = fn, kind, callee, label, loc, macro
         self.key_fn = fn          # the function the key names (the baseline ancestor for code moved into a new helper)
         self.discharged = None    # reason, when a discharge rule decides the source cannot fire
+        self.relabel = None       # subst -> label, for a source inside a new helper: its text with the helper's parameters bound at a call site
     @property
     def key(self):
         return '%s | %s | %s | %s' % (self.key_fn, self.kind, self.callee, self.label)
@@ -48,6 +49,7 @@ class Graph:
         self.mir = facts.mir
         self._src = {}
         self._names = {}
+        self._bodies = {}
         # trait method -> local impl bodies
         self.trait_impls = collections.defaultdict(list)
         for it in facts.items_all:
@@ -67,10 +69,11 @@ class Graph:
         if body_path in self._names:
             return self._names[body_path]
         owner = body_path
-        while owner not in self.facts.hir and '::{' in owner:
+        hir_all = getattr(self.facts, 'hir_all', self.facts.hir)
+        while owner not in self.facts.hir and owner not in hir_all and '::{' in owner:
             owner = owner.rsplit('::{', 1)[0]
         names = set()
-        h = self.facts.hir.get(owner)
+        h = self.facts.hir.get(owner) or hir_all.get(owner)      # a new helper expanded into its callers is no body of `hir`, but its locals are still locals
         if h is not None:
             def pats(x):
                 if isinstance(x, dict):
@@ -87,11 +90,15 @@ class Graph:
         self._names[body_path] = names
         return names
 
-    def label(self, body_path, sp, limit=90):
+    def label(self, body_path, sp, limit=90, subst=None):
         """Source text of the construct with every local variable name replaced by `_` (field names, method
-        names, paths, macro names and literals are kept), whitespace removed."""
+        names, paths, macro names and literals are kept), whitespace removed.  `subst` (name -> literal text) binds
+        parameters of a new helper to the literal arguments of one call site: the label is then the one the construct
+        has with the helper expanded at that site."""
         t = self.snippet(sp, limit=400, squeeze=False)
         names = self.local_names(body_path)
+        subst = subst or {}
+        filled = []
         if names:
             # string literals are left alone
             parts = re.split(r'("(?:[^"\\]|\\.)*")', t)
@@ -111,10 +118,14 @@ class Graph:
                             return w
                         if before.endswith('::') or after.startswith('::') or after.startswith('!'):
                             return w
+                        if w in subst:
+                            filled.append(subst[w])
+                            return '\x00%d\x00' % (len(filled) - 1)
                         return '_'
                     part2 = re.sub(r'\b[A-Za-z_][A-Za-z0-9_]*\b', rep2, part)
                     out.append(re.sub(r"(?<![\w'.])(0[xX][0-9a-fA-F_]+|0[bB][01_]+|0[oO][0-7_]+|[0-9][0-9_]*)((?:[iu](?:8|16|32|64|128|size))?)\b", norm_int, part2))
             t = ''.join(out)
+            t = re.sub('\x00(\\d+)\x00', lambda m: filled[int(m.group(1))], t)
         t = re.sub(r'\s+', '', t)
         return t[:limit]
 
@@ -228,38 +239,58 @@ class Graph:
                     if kind in ('Overflow(Shl)', 'Overflow(Shr)') and shift_const_ok(t.get('operands', ''), m.get('local_tys', [])):
                         continue      # shift by a literal smaller than the operand width cannot overflow
                     src = Source(p, 'assert', kind, ('macro:' + macro) if foreign else self.label(p, sp), where, macro)
+                    if not foreign:
+                        src.relabel = lambda subst, p=p, sp=sp: self.label(p, sp, subst=subst)
                     src.discharged = guarded_arith(self.facts, p, sp, kind) or enumerate_index(self.facts, p, sp, kind) or \
                         (consumed_prefix(self.facts, p, sp, 'sub') if kind == 'Overflow(Sub)' else None)
                     out.append(src)
                 elif t['k'] in ('Call', 'TailCall'):
                     c = t.get('inst') or t.get('callee')
                     if t.get('diverges'):
-                        lab = (macro or '') + ':' + self.label(p, sp)
-                        if macro and macro.startswith('desugar'):
-                            lab = self.label(p, sp)
-                        out.append(Source(p, 'diverging-call', short(c), lab, where, macro))
+                        def div_label(subst=None, p=p, sp=sp, macro=macro):
+                            if macro and macro.startswith('desugar'):
+                                return self.label(p, sp, subst=subst)
+                            return (macro or '') + ':' + self.label(p, sp, subst=subst)
+                        src = Source(p, 'diverging-call', short(c), div_label(), where, macro)
+                        src.relabel = div_label
+                        out.append(src)
                         continue
                     if c in self.mir:
                         continue
                     cls = self.classify(c, t)
                     ext_seen[c] = cls
                     if cls[0] == 'may-panic':
-                        lab = self.label(p, t.get('fn_sp') or sp)
-                        if foreign and len((t.get('fn_sp') or sp)) > 5:
-                            lab = 'macro:' + macro      # code generated by a macro: keyed by the macro, not by its argument text
-                        if '{' in lab:
-                            lab = lab[:lab.index('{') + 1]      # a closure / async block argument: its text is not part of the key
-                        if (c or '').startswith('tokio::'):
-                            lab = 'tokio'      # runtime-context panics (no runtime / no time driver): the argument text is irrelevant to the key
-                        src = Source(p, 'may-panic-call', short(c), lab, where, macro)
+                        def call_label(subst=None, p=p, sp=sp, t=t, c=c, macro=macro, foreign=foreign):
+                            lab = self.label(p, t.get('fn_sp') or sp, subst=subst)
+                            if foreign and len((t.get('fn_sp') or sp)) > 5:
+                                lab = 'macro:' + macro      # code generated by a macro: keyed by the macro, not by its argument text
+                            if '{' in lab:
+                                lab = lab[:lab.index('{') + 1]      # a closure / async block argument: its text is not part of the key
+                            if (c or '').startswith('tokio::'):
+                                lab = 'tokio'      # runtime-context panics (no runtime / no time driver): the argument text is irrelevant to the key
+                            return lab
+                        src = Source(p, 'may-panic-call', short(c), call_label(), where, macro)
+                        src.relabel = call_label
                         src.discharged = lock_poison(t) or (consumed_prefix(self.facts, p, t.get('fn_sp') or sp, 'advance') if (c or '').endswith('>::advance') else None) \
                             or (bounded_amount(self.facts, p, t.get('fn_sp') or sp) if (c or '').rsplit('::', 1)[-1] in ('reserve', 'with_capacity', 'resize', 'reserve_exact') else None) \
                             or (guarded_split(self.facts, p, t.get('fn_sp') or sp) if (c or '').rsplit('::', 1)[-1] in ('split_at', 'split_at_mut') else None)
                         out.append(src)
+        res = []
         for src in out:
-            # the key names the enclosing *function*: code may move between a function, its closures and its async block
-            src.key_fn = re.sub(r'(::\{closure#\d+\})+$', '', attribute(self.facts, parent, src.fn))
-        return out, ext_seen
+            # the key names the enclosing *function*: code may move between a function, its closures and its async block.  A source
+            # inside a new helper is keyed as in the expanded program: once for every baseline function the cone enters the helper
+            # from, with the label it has there (one site seen from several call sites with the same label is one source)
+            seen = set()
+            for top, subst in attributions(self, parent, regions, src.fn):
+                lab = src.relabel(subst) if (subst and src.relabel) else src.label
+                key_fn = re.sub(r'(::\{closure#\d+\})+$', '', top)
+                if (key_fn, lab) in seen:
+                    continue
+                s2 = copy.copy(src) if seen else src
+                seen.add((key_fn, lab))
+                s2.key_fn, s2.label = key_fn, lab
+                res.append(s2)
+        return res, ext_seen
 
     def classify(self, c, t):
         for k, why in NO_PANIC_REVIEWED.items():
@@ -360,10 +391,33 @@ def judge(ctx, rule, groups, triage, describe):
             ctx.ok(rule + '(decided)', key, s.loc, s.discharged)
             continue
         cls = triage.get(key)
+        if cls is None:
+            # fewer sites than the reviewed entry counts: sites of the reviewed set were merged or removed (two arms that panic with
+            # the same message folded into one, several `expect`s routed through one helper).  Every remaining site carries the
+            # reviewed (function, kind, callee, label); it is judged, and reported, under the reviewed key.  More sites than reviewed,
+            # or another function / kind / callee / label, is a new source.
+            reviewed = reviewed_superset(key, triage)
+            if reviewed is not None:
+                key, cls = reviewed, triage[reviewed]
+                cls = (cls[0], cls[1] + ' (x%d of the reviewed sites remain)' % len(lst))
         if cls and cls[0] == 'infeasible':
             ctx.ok(rule + '(reviewed-infeasible)', key, s.loc, cls[1])
         else:
             ctx.fail(rule, key, s.loc, describe(s) + (('; triage: ' + cls[1]) if cls else ''))
+
+def _split_key(key):
+    m = re.match(r'(.*) x(\d+)$', key, re.S)
+    return (m.group(1), int(m.group(2))) if m else (key, 1)
+
+def reviewed_superset(key, triage):
+    """The reviewed key with the same (function, kind, callee, label) and the smallest multiplicity above the observed one."""
+    stem, n = _split_key(key)
+    best = None
+    for k in triage:
+        st, m = _split_key(k)
+        if st == stem and m > n and (best is None or m < best[0]):
+            best = (m, k)
+    return best[1] if best else None
 
 def load_triage(path):
     t = {}
@@ -638,21 +692,78 @@ def lock_poison(term):
             return 'lock poisoning needs a prior panic of another holder while the lock is held; the critical sections of this lock are analysed for panic sources on their own (C05 N1 / this cone)'
     return None
 
-def attribute(facts, parent, fn):
-    """A source inside a helper that does not exist on the baseline tree is attributed to the nearest baseline
-    function through which the cone reaches it, so a key does not change when code moves into a new helper."""
+def attributions(G, parent, regions, fn, stack=()):
+    """A source inside a helper that does not exist on the baseline tree belongs, as in the expanded program, to every baseline
+    function through which the cone enters the helper (through any number of new helpers), so a key does not change when code
+    moves into a new helper.  Returns [(body path the key names, {parameter name of the helper: literal text})]: a parameter
+    that receives a literal (directly, through an immutable `let`, through a named constant or through a parameter of an
+    enclosing new helper that is itself bound to a literal) at the call site is bound to it, so that `expect(what)` inside
+    `helper(.., what: &str)` is `expect("matched dn")` seen from `helper(.., "matched dn")`."""
+    facts = G.facts
     new = getattr(facts, 'new_fns', set())
-    p = fn
-    seen = 0
-    while p is not None and seen < 50:
-        base = p
-        while base not in facts.hir_all and '::{' in base:
-            base = base.rsplit('::{', 1)[0]
-        if base not in new:
-            return p
-        p = parent.get(p)
-        seen += 1
-    return fn
+    base = fn
+    while base not in facts.hir_all and '::{' in base:
+        base = base.rsplit('::{', 1)[0]
+    if base not in new or len(stack) > 8:
+        return [(fn, {})]
+    rec = facts.hir_all.get(base)
+    pnames = {}
+    if rec is not None:
+        H = G._bodies.get(base)
+        if H is None:
+            H = G._bodies[base] = _hirq.Body(facts, rec)
+        bound = collections.Counter(d['name'] for d in H.defs.values())
+        for i, pat in enumerate(rec['params']):
+            bs = list(_hirq.pat_bindings(pat))
+            # a parameter bound whole, never assigned, whose name no other binding of the helper shadows (labels are text)
+            if len(bs) == 1 and not bs[0][2] and not H.assigns.get(bs[0][0]) and bound[bs[0][1]] == 1:
+                pnames[i] = bs[0][1]
+    res = []
+    inside = lambda p: p == base or p.startswith(base + '::{')
+    for caller in parent:
+        if inside(caller) or caller in stack:
+            continue
+        for tg, _bb, sp in G.edges[caller]:
+            if tg != base or (caller in regions and not in_region(sp, regions[caller])):
+                continue
+            for top, outer in attributions(G, parent, regions, caller, stack + (base,)):
+                res.append((top, _bind_literals(G, caller, sp, base, pnames, outer)))
+    # reached in no other way than the ones above (an entry of the cone, a trait object): keyed by itself
+    return res or [(fn, {})]
+
+def _bind_literals(G, caller, sp, callee, pnames, outer):
+    facts = G.facts
+    rec = hir_owner(facts, caller)
+    if rec is None or not pnames:
+        return {}
+    B = G._bodies.get(rec['path'])
+    if B is None:
+        B = G._bodies[rec['path']] = _hirq.Body(facts, rec)
+    from facts import callee_of as _callee_of, call_args as _call_args
+    sites = [n for n in B.nodes if n['k'] in ('Call', 'MethodCall') and _callee_of(n) == callee and n.get('sp') and
+             (list(n['sp'][:5]) == list(sp[:5]) or (n['sp'][0] == sp[0] and n['sp'][3:5] == sp[3:5]))]
+    if len(sites) != 1:
+        return {}
+    args = _call_args(sites[0])
+    subst = {}
+    for i, name in pnames.items():
+        if i >= len(args):
+            continue
+        a = _hirq.peel_refs(_hirq.resolve_expr(B, args[i]))
+        b = _hirq.local_of(a)
+        d = B.defs.get(b) if b is not None else None
+        if d is not None:
+            if d['kind'] == 'param' and not d['proj'] and not B.assigns.get(b) and d['name'] in outer:
+                subst[name] = outer[d['name']]
+            continue
+        v = a.get('v') if a['k'] == 'Lit' else _hirq.const_eval(facts, a)
+        if isinstance(v, bool):
+            subst[name] = 'true' if v else 'false'
+        elif isinstance(v, int):
+            subst[name] = str(v)
+        elif isinstance(v, str):
+            subst[name] = '"%s"' % v
+    return subst
 
 
 # ---------------------------------------------------------------------------------------
